@@ -8,6 +8,7 @@ relation to the drawing (subdivision of lines and arcs) is the Discretize.v mode
 import os, json, copy
 import vlib, femgen, meshlib, geomgen
 
+EXTRA_PROPERTY_FILES = ["C02_poly"]     # C01_poly_*: switch string, written files = Triangle's arrays (PolyWrite.v, run with C18)
 LEVEL = "translation_validation"
 COQ_MODULES = ["MeshCheck"]
 ASSUMPTIONS = [
